@@ -101,3 +101,14 @@ func init() {
 		Assumptions: []string{hookAssumption, "door names held in the map returned by DeviceList are not asserted to be insulated (the statement only promises that changing that map does not change where requests go)"},
 		Plan: func(tier string) []Batch { return same(n(tier, 8, 16), Batch{Timeout: 30 * time.Minute}) }}
 }
+
+var loopAssumption = "loopback (127.0.0.0/8) sockets stand in for the network; datagrams sent by one farm goroutine arrive in order"
+
+func init() {
+	specs["C03"] = &Spec{ID: "C03", Level: "fault_enumeration", Parallel: 6,
+		Assumptions: []string{hookAssumption + " (hooked layer: BroadcastTo callback loop emulated)", loopAssumption, "on TCP one write is one 'datagram'; zero-length datagrams do not exist on TCP", "operations without a boolean / system date-time field have no 'malformed field' class"},
+		Plan: func(tier string) []Batch {
+			b := same(n(tier, 4, 8), Batch{Mode: "hook", Timeout: 20 * time.Minute})
+			return append(b, same(n(tier, 2, 6), Batch{Mode: "loopback", Timeout: 20 * time.Minute, Procs: 8})...)
+		}}
+}
